@@ -1370,6 +1370,111 @@ func CheckC16(c *Ctx) {
 		c.Extra["threat_x_environmental_configurations_walked"] = walked.Load()
 		c.Floor("threat x environmental configurations", walked.Load(), 1179648000)
 	}
+	// COMPLETE over each group of metrics the function must NOT depend on: (a) all 2,160 configurations of the six
+	// supplemental metrics x all 4 values of E x {no environmental metric, each environmental metric alone at each of its
+	// defined values} x 3 base backgrounds; (b) all 104,976 base configurations x E in {X, one defined value} x {no
+	// environmental metric, one alone} x supplemental {none, all at their last value, random}
+	{
+		var supp, env, base []int
+		for m, me := range v.Metrics {
+			switch {
+			case me.Group == spec.GSupp:
+				supp = append(supp, m)
+			case me.Group == spec.GEnv:
+				env = append(env, m)
+			case me.Mandatory:
+				base = append(base, m)
+			}
+		}
+		type ec struct{ m, vi int }
+		envCases := []ec{{-1, 0}}
+		for _, m := range env {
+			for vi := 1; vi < len(v.Metrics[m].Values); vi++ {
+				envCases = append(envCases, ec{m, vi})
+			}
+		}
+		nSupp := 1
+		for _, m := range supp {
+			nSupp *= len(v.Metrics[m].Values)
+		}
+		eI := v.Index("E")
+		var nA, nB atomic.Int64
+		c.Parallel("all-supplemental-configurations", nSupp, 8, func(w *Worker, i int) {
+			n := 0
+			for bg := 0; bg < 3; bg++ {
+				a := baseBG(w.R, bg)
+				k := i
+				for _, m := range supp {
+					a[m] = uint8(k % len(v.Metrics[m].Values))
+					k /= len(v.Metrics[m].Values)
+				}
+				for e := 0; e < len(v.Metrics[eI].Values); e++ {
+					a[eI] = uint8(e)
+					for _, x := range envCases {
+						if x.m >= 0 {
+							a[x.m] = uint8(x.vi)
+						}
+						check(w, a.Clone(), n%NStyles, "all-supplemental")
+						n++
+						if x.m >= 0 {
+							a[x.m] = 0
+						}
+					}
+				}
+			}
+			nA.Add(int64(n))
+			w.Acc[63] += int64(n)
+		})
+		nBase := 1
+		for _, m := range base {
+			nBase *= len(v.Metrics[m].Values)
+		}
+		c.Parallel("all-base-configurations", nBase, 256, func(w *Worker, i int) {
+			a := v.ZeroAssign()
+			k := i
+			for _, m := range base {
+				a[m] = uint8(k % len(v.Metrics[m].Values))
+				k /= len(v.Metrics[m].Values)
+			}
+			n := 0
+			for e := 0; e < 2; e++ {
+				a[eI] = 0
+				if e == 1 {
+					a[eI] = uint8(1 + w.R.Intn(len(v.Metrics[eI].Values)-1))
+				}
+				for env1 := 0; env1 < 2; env1++ {
+					x := envCases[0]
+					if env1 == 1 {
+						x = envCases[1+w.R.Intn(len(envCases)-1)]
+						a[x.m] = uint8(x.vi)
+					}
+					for sc := 0; sc < 3; sc++ {
+						for _, m := range supp {
+							switch sc {
+							case 0:
+								a[m] = 0
+							case 1:
+								a[m] = uint8(len(v.Metrics[m].Values) - 1)
+							case 2:
+								a[m] = uint8(w.R.Intn(len(v.Metrics[m].Values)))
+							}
+						}
+						check(w, a.Clone(), n%NStyles, "all-base")
+						n++
+					}
+					if x.m >= 0 {
+						a[x.m] = 0
+					}
+				}
+			}
+			nB.Add(int64(n))
+			w.Acc[63] += int64(n)
+		})
+		c.Extra["supplemental_configurations_x_E_x_environmental_cases_x_backgrounds"] = nA.Load()
+		c.Extra["base_configurations_x_cases"] = nB.Load()
+		c.Floor("supplemental configurations", int64(nSupp), 2160)
+		c.Floor("base configurations", int64(nBase), 104976)
+	}
 	// random assignments in random history styles
 	c.Parallel("random", c.Pick(4_000_000, 400_000_000), 4096, func(w *Worker, i int) {
 		a := gen.MixedAssign(w.R, v)
@@ -1390,10 +1495,10 @@ func CheckC16(c *Ctx) {
 		c.Floor("result "+r, c.Counts["result:"+r], 100)
 	}
 	c.SetReport(Report{
-		Rule:        "oracle from the assignment (T iff E defined; E iff any of CR IR AR MAV..MSA defined). COMPLETE: each of the 21 optional metrics as the sole defined metric x each defined value x 3 base backgrounds x 5 history styles; all-but-one; none/all; every pair of optional metrics x all value pairs; EVERY assignment with at most 4 (thorough: 5) optional metrics defined x all their value combinations; ALL 1,179,648,000 configurations of E and the 14 environmental metrics (the whole space the function can depend on besides base/supplemental metrics, which must not matter), walked in Gray-code order by single Set calls. Sampled: random assignments (uniform, sparse 1/12, sparse 1/3) in random history styles (stale bits from overwritten values). distinct = distinct assignments",
+		Rule:        "oracle from the assignment (T iff E defined; E iff any of CR IR AR MAV..MSA defined). COMPLETE: each of the 21 optional metrics as the sole defined metric x each defined value x 3 base backgrounds x 5 history styles; all-but-one; none/all; every pair of optional metrics x all value pairs; EVERY assignment with at most 4 (thorough: 5) optional metrics defined x all their value combinations; ALL 1,179,648,000 configurations of E and the 14 environmental metrics (the whole space the function can depend on besides base/supplemental metrics, which must not matter), walked in Gray-code order by single Set calls; ALL 2,160 configurations of the supplemental metrics x all values of E x {no environmental metric, each environmental metric alone at each defined value} x 3 base backgrounds; ALL 104,976 base configurations x {E X/defined} x {no / one environmental metric} x {no / last-value / random supplemental metrics}. Sampled: random assignments (uniform, sparse 1/12, sparse 1/3) in random history styles (stale bits from overwritten values). distinct = distinct assignments",
 		Exhaustive:  true,
 		DistinctN:   c.Acc[63] + c.Distinct.Count(),
-		Assumptions: []string{"group membership of each metric per v4.0 specification Table 23", "exhaustive over E x all environmental metrics (every value); base and supplemental metrics, which must not matter, are seeded per chunk and covered by the sole-metric / random workloads"},
+		Assumptions: []string{"group membership of each metric per v4.0 specification Table 23", "exhaustive over E x all environmental metrics (every value), over all supplemental configurations and over all base configurations, each against a few settings of the other groups; not the full product of the three"},
 	})
 	c.Finish()
 }
